@@ -61,6 +61,7 @@ type world struct {
 
 	genTime uint64
 	genVol  uint64
+	arb     bool // the node under test runs as an arbitrating block publisher
 }
 
 func newWorld(r *Rng, dir string) *world {
@@ -75,6 +76,7 @@ func newWorld(r *Rng, dir string) *world {
 		w.addrs = append(w.addrs, a)
 		w.keyOf[a] = k
 	}
+	w.arb = r.Chance(45)
 	w.genTime = 1426562704 + uint64(r.Intn(1000))
 	switch r.Intn(5) {
 	case 0:
@@ -168,9 +170,15 @@ func (w *world) openNode(path string, genesisSig cipher.Sig) (*node, error) {
 	bdb.NoSync = true // temp files; durability is not the subject here
 	db := dbutil.WrapDB(bdb)
 	cfg := visor.NewConfig()
-	cfg.IsBlockPublisher = false
-	cfg.Arbitrating = false
+	// follower: the configuration of every node that receives blocks; arbitrating:
+	// the block publisher's configuration (src/skycoin/skycoin.go sets
+	// Arbitrating = RunBlockPublisher), which is handed blocks through the same entry point
+	cfg.IsBlockPublisher = w.arb
+	cfg.Arbitrating = w.arb
 	cfg.BlockchainPubkey = w.pub
+	if w.arb {
+		cfg.BlockchainSeckey = w.sec
+	}
 	cfg.GenesisAddress = w.addrs[0]
 	cfg.GenesisCoinVolume = w.genVol
 	cfg.GenesisTimestamp = w.genTime
@@ -264,6 +272,7 @@ var errTable = []struct{ sub, name string }{
 	{"save block failed", "EStore"},
 	{"save signature failed", "EStore"},
 	{"twice into the unspent pool", "EInsertTwice"},
+	{"HistoryDB.ParseBlock", "EHistory"},
 }
 
 var sigErrs = map[error]bool{
@@ -566,8 +575,9 @@ func (w *world) txnTerm(t coin.Transaction, bh coin.BlockHeader, headSeq uint64)
 	sz, _, err := t.SizeHash()
 	lenOK := err == nil && sz == t.Length
 	innerOK := t.HashInner() == t.InnerHash
-	return fmt.Sprintf("mkTxn %d %s %s %s %d %s %s %s", w.id(t.Hash()), List(ins), List(outs), List(sigs),
-		t.Type, B(lenOK), B(innerOK), List(ids0))
+	th := t.Hash()
+	return fmt.Sprintf("mkTxn %d %s %s %s %d %s %s %s %d %s", w.id(th), List(ins), List(outs), List(sigs),
+		t.Type, B(lenOK), B(innerOK), List(ids0), sz, Z(binary.BigEndian.Uint64(th[:8])))
 }
 
 func (w *world) blockName(p *printer, sb coin.SignedBlock, headSeq uint64) string {
@@ -1019,7 +1029,8 @@ func run(args []string) error {
 				outs = append(outs, fmt.Sprintf("mkOut %d %s %s %d %s", w.addrID(out.Address), Z(out.Coins), Z(out.Hours),
 					w.id(ux[i].Hash()), Z(low64(ux[i].SnapshotHash()))))
 			}
-			tt := p.def("t", "txn", fmt.Sprintf("mkTxn %d [] %s [] %d true true []", w.id(t.Hash()), List(outs), t.Type))
+			gsz, gth, _ := t.SizeHash()
+			tt := p.def("t", "txn", fmt.Sprintf("mkTxn %d [] %s [] %d true true [] %d %s", w.id(t.Hash()), List(outs), t.Type, gsz, Z(binary.BigEndian.Uint64(gth[:8]))))
 			hd := fmt.Sprintf("(mkHeader %d %s %s %s %d %d %s)", gb.Head.Version, Z(gb.Head.Time), Z(gb.Head.BkSeq), Z(gb.Head.Fee),
 				w.id(gb.Head.PrevHash), w.id(gb.Head.BodyHash), Z(low64(gb.Head.UxHash)))
 			return p.def("b", "block", fmt.Sprintf("mkBlock %s %d %d true [%s]", hd, w.id(gb.HashHeader()), w.id(gb.Body.Hash()), tt))
@@ -1074,11 +1085,16 @@ func run(args []string) error {
 				nd.close()
 				return err
 			}
+			storedNames := []string{}
 			if execErr == nil && !panicked {
 				// bookkeeping for the generators (spent outputs, accepted blocks)
 				stored, e := nd.v.GetSignedBlockBySeq(head.Head.BkSeq + 1)
 				if e == nil && stored != nil {
 					h.accepted = append(h.accepted, *stored)
+					// the body as the node stored it (an arbitrating node filters and re-orders it)
+					for _, t := range stored.Body.Transactions {
+						storedNames = append(storedNames, p.def("t", "txn", w.txnTerm(t, stored.Head, head.Head.BkSeq)))
+					}
 				}
 				now := map[cipher.SHA256]bool{}
 				for _, ux := range uxs {
@@ -1091,11 +1107,19 @@ func run(args []string) error {
 				}
 			}
 			h.unspent = uxs
-			steps = append(steps, fmt.Sprintf("(%s, %s, %s)", bname, res, dn))
+			steps = append(steps, fmt.Sprintf("(%s, %s, %s, %s)", bname, res, dn, List(storedNames)))
 			desc := map[string]interface{}{"hist": hi, "op": len(steps), "kind": op.kind, "resigned": op.resigned, "result": cls,
-				"head_seq_before": head.Head.BkSeq, "block_seq": op.sb.Head.BkSeq, "ntxns": len(op.sb.Body.Transactions), "state_changed": dn != prevD}
+				"head_seq_before": head.Head.BkSeq, "block_seq": op.sb.Head.BkSeq, "ntxns": len(op.sb.Body.Transactions), "nstored": len(storedNames), "arbitrating": w.arb, "state_changed": dn != prevD}
 			opsJSON = append(opsJSON, desc)
 			prevD = dn
+			mode := "follower"
+			if w.arb {
+				mode = "arbitrating"
+			}
+			hist.Add("node:" + mode)
+			if w.arb && cls == "" && len(storedNames) < len(op.sb.Body.Transactions) {
+				hist.Add("arbitrating_dropped_txns:" + op.kind)
+			}
 			hist.Add("op:" + op.kind)
 			if cls == "" {
 				hist.Add("result:Accepted")
@@ -1112,7 +1136,7 @@ func run(args []string) error {
 		os.RemoveAll(dir)
 		o.Raw(p.defs.String())
 		hn := fmt.Sprintf("h%d", hi)
-		o.Raw(fmt.Sprintf("Definition %s : history := mkHist %s %s %s\n  %s.\n", hn, gname, Z(w.genVol), d0, List(steps)))
+		o.Raw(fmt.Sprintf("Definition %s : history := mkHist %s %s %s %s\n  %s.\n", hn, B(w.arb), gname, Z(w.genVol), d0, List(steps)))
 		histNames = append(histNames, hn)
 		hist.Add(fmt.Sprintf("history_len:%02d-%02d", (len(steps)/10)*10, (len(steps)/10)*10+9))
 	}
